@@ -46,6 +46,18 @@ THEOREMS = [
     "chain_targets_exist",
     "chain_targets_exist_step",
     "chain_spec_agrees",
+    "gen_cascade_marks_balanced",
+    "gen_delete_marks_balanced",
+    "gen_context_reuse_exact",
+    "gen_refused_changes_nothing",
+    "gen_restrict_refuses",
+    "gen_write_requires_target",
+    "gen_fk_target_exists_write",
+    "schemaChain_restrict_refuses",
+    "schemaAB_restrict_refuses",
+    "schemaAB_marks_balanced",
+    "gen_delete_only_removes",
+    "gen_delete_removes_target",
 ]
 
 RULE = ("scripted families (every id of the hostile pool — quotes, backslashes, backslash-n, filter keywords, "
@@ -77,6 +89,13 @@ RULE = ("scripted families (every id of the hostile pool — quotes, backslashes
         "and random histories of 6-25 transactions (create / update / delete at every level, ids from the hostile pool, "
         "in half of them the same names at every level; a third forced to cascade-over-restrict); dump, ids, stored "
         "refs and error enum compared after every transaction. "
+        "Round 14: a third family over RANDOM SCHEMAS (kind `g`): 2-4 root stores, 1-6 fk declarations of mixed kinds "
+        "(fk index / fk constraint, nullable / not, restrict / cascade; self references, cycles of length 2-3 across "
+        "stores, an fk index reached by a cascade, restrict into a self-referencing cascade, several declarations "
+        "between the same two stores, shuffled registration order), wired on real stores; histories of 8-27 "
+        "transactions of create / update / patch update / delete, two in five on ONE reused MutateContext; ids, stored fk "
+        "values, GetRelatedEntitiesIdList of every fk index and the error enum compared with the schema-parametric model "
+        "(exact next state) after every transaction. "
         "non-trivial = the history contains a refused delete (refexists), a cascading delete that removed >= 2 "
         "entities, or a rejected write (notfound / null-not-allowed); distinct = (variant, sequence of results and "
         "coarse digests)")
@@ -148,11 +167,45 @@ def pretty_op(op):
 
 def _verbose(case):
     """h -> v, k -> w (k / w: the history runs on ONE reused MutateContext)"""
-    return {"h": "v", "k": "w", "t": "T"}.get(case[:1], case[:1]) + case[1:]
+    return {"h": "v", "k": "w", "t": "T", "g": "G"}.get(case[:1], case[:1]) + case[1:]
+
+
+def pretty_gen_case(f):
+    """kind g: a random schema over the schema-parametric model (harness/c04_gen.go)"""
+    h = f[1].split(";")
+    decls = []
+    for k, w in enumerate(h[2:]):
+        p = w.split(".")
+        if len(p) != 5:
+            decls.append({"decl": w})
+            continue
+        decls.append({"field": "g%s.f%d" % (p[0], k), "target_store": "g" + p[1],
+                      "kind": "fk index (back-reference set b%d on the target)" % k if p[2] == "i" else "fk constraint",
+                      "nullable": p[3] == "1" and not (p[2] == "i" and p[4] == "d"),
+                      "on_delete_of_target": "cascade delete" if p[4] == "d" else "restrict (reference-exists)"})
+    def op(o):
+        g = o.split(":")
+        try:
+            verb = {"c": "create", "u": "update", "p": "patch_update", "d": "delete"}[g[0]]
+            d = {verb: "g%s/%s" % (g[1], _unhex(g[2]))}
+            if g[0] == "p":
+                d["checker_lists_fields (mask over the store's fk fields)"] = g[3]
+            if g[0] != "d":
+                d["fk_values_in_declaration_order"] = [_fv(v) for v in g[-1].split("/")] if g[-1] != "_" else []
+            return d
+        except (IndexError, KeyError):
+            return {"op": o}
+    return {"schema": {"stores": ["g%d" % t for t in range(int(h[1]))] if h[1].isdigit() else h[1],
+                       "fk_declarations_in_registration_order": decls},
+            "mutate_context": "ONE MutateContext object reused for every Db.Update of the history" if h[0] == "1"
+                              else "a fresh MutateContext per transaction",
+            "transactions": [[op(o) for o in tx.split(",")] for tx in f[2:] if tx]}
 
 
 def pretty_case(case):
     f = case.split(" ")
+    if f[0] in ("g", "G") and len(f) > 1:
+        return pretty_gen_case(f)
     v = int(f[1]) if len(f) > 1 and f[1].isdigit() else -1
     if f[0] in ("t", "T"):
         mode = lambda c: "CascadeDelete" if c else "CascadeNone (restrict)"
@@ -178,6 +231,28 @@ def blank_fine(line):
     if line is None:
         return None
     return " ".join(re.sub(r"^([^#]*)#[^#]*#", r"\1#*#", t) for t in line.split(" "))
+
+
+def spec_match(a, s):
+    """blanked implementation line vs spec line.  The spec of the random-schema family (kind g) is a relation: a token
+    may list several allowed observations separated by `%%` (a delete whose only restrict referrers lie inside the
+    cascade closure may be refused or remove the closure), `?` = undecided (too many live branches)."""
+    if a == s:
+        return True
+    if a is None or s is None or ("%%" not in s and "?" not in s):
+        return False
+    ta, ts = a.split(" "), s.split(" ")
+    return len(ta) == len(ts) and all(y == "?" or x in y.split("%%") for x, y in zip(ta, ts))
+
+
+def first_spec_diff(a, s):
+    ta, ts = (a or "").split(" "), (s or "").split(" ")
+    for i in range(max(len(ta), len(ts))):
+        x = ta[i] if i < len(ta) else None
+        y = ts[i] if i < len(ts) else None
+        if x != y and not (x is not None and y is not None and (y == "?" or x in y.split("%%"))):
+            return i, x, y
+    return None
 
 
 def first_diff(a, b):
@@ -212,6 +287,8 @@ def situation_stats(case, impl, stats):
     """Replays the committed transactions of one history on a small table (ids and fk values as wire strings) to count
     which situations the generated histories actually reached (evidence only; verdicts never depend on it)."""
     f = case.split(" ")
+    if f[0] in ("g", "G"):
+        return gen_stats(f, impl, stats)
     try:
         variant = int(f[1])
     except (IndexError, ValueError):
@@ -346,6 +423,29 @@ def situation_stats(case, impl, stats):
             bump("state with an A entity referring to the B entity of the same id")
 
 
+def gen_stats(f, impl, stats):
+    """random schemas: which schema features and delete outcomes the histories reached"""
+    def bump(k):
+        stats[k] = stats.get(k, 0) + 1
+
+    h = f[1].split(";")
+    decls = [w.split(".") for w in h[2:]]
+    bump("generic schema history" + (", reused MutateContext" if h[0] == "1" else ""))
+    if any(d[0] == d[1] and d[4] == "d" for d in decls):
+        bump("generic schema with a self-referencing cascade")
+    casc_into = {d[1] for d in decls if d[4] == "d"}
+    if any(d[4] == "r" and d[2] == "i" and d[0] in {c[0] for c in decls if c[4] == "d"} for d in decls):
+        bump("generic schema: an fk index (restrict) on a store that a cascade reaches")
+    if any(d[4] == "r" and d[1] in casc_into for d in decls):
+        bump("generic schema: restrict and cascade declarations targeting the same store")
+    for tx, tok in zip([t for t in f[2:] if t], (impl or "").split(" ")):
+        ops = tx.split(",")
+        if len(ops) == 1 and ops[0][:2] == "d:":
+            bump("generic delete -> " + tok.split("#")[0].split(":")[-1])
+        if any(o[:2] == "p:" for o in ops):
+            bump("generic patch update -> " + tok.split("#")[0].split(":")[-1])
+
+
 def tier_stats(f, variant, impl, stats):
     """the three-store chain: which delete situations the histories reached"""
     T = [set(), {}, {}]
@@ -419,7 +519,7 @@ def _listed():
 
 def _fails(kind, a, m, s, case=None):
     if kind == "spec":
-        if blank_fine(a) == s:
+        if spec_match(blank_fine(a), s):
             return False
         info = {"impl": a, "model": m, "spec": s}
         return not any(fn(case, info) for name, fn in MATCHERS.items() if name in _listed())
@@ -433,7 +533,7 @@ def shrink(ctx, case, kind):
     r = _run(ctx, [case])
     if r is None or not _fails(kind, r[0][0], r[1][0], r[2][0], case):
         return case
-    d = first_diff(blank_fine(r[0][0]), r[2][0]) if kind == "spec" else first_diff(r[0][0], r[1][0])
+    d = first_spec_diff(blank_fine(r[0][0]), r[2][0]) if kind == "spec" else first_diff(r[0][0], r[1][0])
     if d is not None and d[0] + 1 < len(txs):
         cut = txs[:d[0] + 1]
         rc = _run(ctx, [" ".join(head + cut)])
@@ -474,7 +574,7 @@ def verbose_detail(ctx, case, a, m, s):
         fd = first_diff(r[0][0], r[1][0])
         if fd is not None:
             d["first_impl_vs_model_difference"] = {"transaction": fd[0], "impl": fd[1], "model": fd[2]}
-        fs = first_diff(blank_fine(r[0][0]), r[2][0])
+        fs = first_spec_diff(blank_fine(r[0][0]), r[2][0])
         if fs is not None:
             d["first_impl_vs_spec_difference"] = {"transaction": fs[0], "impl": fs[1], "spec": fs[2]}
     return d
@@ -571,8 +671,14 @@ def run(ctx, replay_cases=None):
                     o, e = "??", r
                 hist_ops[o[:2]] = hist_ops.get(o[:2], 0) + 1
                 hist_res[o[:2] + " " + e] = hist_res.get(o[:2] + " " + e, 0) + 1
-        if blank_fine(a) != s:
+        if not spec_match(blank_fine(a), s):
             spec_bad.append((c, a, m, s))
+        if s and ("%%" in s or "?" in s):
+            situations["generic: history with a delete for which the spec allows both outcomes"] = \
+                situations.get("generic: history with a delete for which the spec allows both outcomes", 0) + 1
+            if "?" in s.split(" "):
+                situations["generic: spec undecided (more than 16 branches)"] = \
+                    situations.get("generic: spec undecided (more than 16 branches)", 0) + 1
         if a != m:
             corr_bad.append((c, a, m, s))
     idxs = sorted(set([0, n // 3, n // 2, n - 1])) if n else []
